@@ -19,6 +19,8 @@ type loop struct {
 	phiVals  map[*ssa.Phi]string
 	entryState *State // state in which the loop was entered (before the havoc)
 	entryPhis  map[*ssa.Phi]Val // values of the header phis on entry
+	iterState  *State           // state at the head of an arbitrary iteration (after the havoc)
+	iterPhis   map[*ssa.Phi]Val // values of the header phis at the head of that iteration
 }
 
 type loopInfo struct {
@@ -327,6 +329,15 @@ func (fr *frame) enterLoop(lp *loop, edges []inEdge, label string) (string, *Sta
 		}
 		ft.assume(reach, fact)
 	}
+	lp.iterState = st.clone()
+	lp.iterPhis = map[*ssa.Phi]Val{}
+	for _, ins := range b.Instrs {
+		phi, ok := ins.(*ssa.Phi)
+		if !ok {
+			break
+		}
+		lp.iterPhis[phi] = fr.vals[phi]
+	}
 	return reach, st
 }
 
@@ -334,7 +345,8 @@ func (fr *frame) checkLoopStep(lp *loop, from *ssa.BasicBlock, cond string, st *
 	ft := fr.ft
 	b := lp.header
 	invs := fr.loopInvariantsBound(lp)
-	if len(invs) == 0 {
+	decrs := fr.loopClausesBound(lp, true)
+	if len(invs) == 0 && len(decrs) == 0 {
 		return
 	}
 	// bind phis to back-edge values
@@ -366,6 +378,16 @@ func (fr *frame) checkLoopStep(lp *loop, from *ssa.BasicBlock, cond string, st *
 			continue
 		}
 		fr.oblig("inv-step", inv.Props, lp.pos, fmt.Sprintf("loop%d: %s", lp.ordinal, inv.name()), cond, goal)
+	}
+	// variants: "decreases T" - at every back edge T is smaller than at the
+	// head of the iteration, where it was not negative
+	for _, d := range decrs {
+		goal, err := d.eval(fr, st, lp)
+		if err != nil {
+			ft.e.contractError(d.Clause, err)
+			continue
+		}
+		fr.oblig("variant", d.Props, lp.pos, fmt.Sprintf("loop%d: decreases %s", lp.ordinal, d.name()), cond, goal)
 	}
 	for phi, v := range saved {
 		fr.vals[phi] = v
@@ -424,7 +446,17 @@ func (fr *frame) loopInvariants(lp *loop) []*Clause {
 // invariants that a caller (an ancestor frame) supplies for the loops of this
 // inlined callee ("invariant in CALLEE N ...").
 func (fr *frame) loopInvariantsBound(lp *loop) []boundInv {
+	return fr.loopClausesBound(lp, false)
+}
+
+func (fr *frame) loopClausesBound(lp *loop, decr bool) []boundInv {
 	var out []boundInv
+	list := func(fc *FuncContract) []*Clause {
+		if decr {
+			return fc.Decr
+		}
+		return fc.Invs
+	}
 	check := func(c *Clause) bool {
 		if c.Header != "" {
 			line := fr.ft.e.lineText(lp.pos)
@@ -441,7 +473,7 @@ func (fr *frame) loopInvariantsBound(lp *loop) []boundInv {
 		return true
 	}
 	if fr.fc != nil {
-		for _, c := range fr.fc.Invs {
+		for _, c := range list(fr.fc) {
 			if c.Site == "" && c.Loop == lp.ordinal && check(c) {
 				out = append(out, boundInv{c, fr})
 			}
@@ -452,7 +484,7 @@ func (fr *frame) loopInvariantsBound(lp *loop) []boundInv {
 		if a.fc == nil {
 			continue
 		}
-		for _, c := range a.fc.Invs {
+		for _, c := range list(a.fc) {
 			if c.Site == name && c.Loop == lp.ordinal && check(c) {
 				out = append(out, boundInv{c, a})
 			}
@@ -465,7 +497,12 @@ func (b boundInv) eval(fr *frame, st *State, lp *loop) (string, error) {
 	if b.owner == fr {
 		saved, savedPhis := fr.curLoopEntry, fr.curLoopEntryPhis
 		fr.curLoopEntry, fr.curLoopEntryPhis = lp.entryState, lp.entryPhis
-		defer func() { fr.curLoopEntry, fr.curLoopEntryPhis = saved, savedPhis }()
+		savedI, savedIP := fr.curIterState, fr.curIterPhis
+		fr.curIterState, fr.curIterPhis = lp.iterState, lp.iterPhis
+		defer func() {
+			fr.curLoopEntry, fr.curLoopEntryPhis = saved, savedPhis
+			fr.curIterState, fr.curIterPhis = savedI, savedIP
+		}()
 		return fr.evalBool(b.E, st, fr.entry, lp.header)
 	}
 	// evaluated with the names of the supplying caller, in the current state
